@@ -322,6 +322,8 @@ def install(I):
                      "Integral": z3.Or(Val.is_VInt(x), Val.is_VBool(x))}
                 if n in m:
                     res.append(m[n])
+                elif n in ("Graph", "DiGraph") and n in I.cset.classes:
+                    res.append(Val.is_VRef(x))     # the only objects stored in `any` slots of these records are graphs
                 elif n in ("list", "dict", "set", "Mapping", "frozenset") or n in I.cset.classes:
                     res.append(FALSE)
                 else:
@@ -882,7 +884,8 @@ def install(I):
                 if isinstance(v, CompVal):
                     conc = I.comp_concrete(v.node, v.st)
                     if conc is None:
-                        raise Unsupported("min/max over symbolic generator")
+                        yield from minmax_gen(I, st, v, kw, is_max)
+                        return
                     items = []
                     for s, guard in conc:
                         if not z3.is_true(guard):
@@ -908,6 +911,34 @@ def install(I):
                 best = I.ite(c, x, best)
             yield best, st
         return fn
+
+    def minmax_gen(I, st, comp, kw, is_max):
+        """max/min of a generator over a symbolic sequence / set: the value is attained and bounds every element"""
+        spec, x, s2, dom, guard = I.comp_symbolic(comp.node, comp.st)
+        val, _ = I.eval1(comp.node.elt, s2)
+        val = I.tup_to_sv(val)
+        orig = val
+        if val.kind.tag == "bool":
+            val = I.coerce(val, INT)
+            orig = val
+        if val.kind.tag == "any":
+            # numbers stored as Vals: ordered numerically, the result is the attaining element itself (keeps int-ness)
+            val = SV(REAL, core.num_of(val.tree))
+        elif val.kind.tag not in ("int", "real"):
+            raise Unsupported("min/max over a generator of %r" % (val.kind,))
+        w = z3.Const(core.fresh_name("argm"), x.sort())
+        cond = z3.And(dom, guard)
+        nonempty = z3.Exists([x], cond)
+        at_w = lambda t: z3.substitute(t, (x, w))
+        cmp_ = (lambda a, b: a >= b) if is_max else (lambda a, b: a <= b)
+        m = at_w(val.tree)
+        I.define([z3.Implies(nonempty, z3.And(at_w(cond), z3.ForAll([x], z3.Implies(cond, cmp_(m, val.tree)))))])
+        mv = SV(orig.kind, tmap(at_w, orig.tree))
+        if "default" in kw:
+            yield I.ite(nonempty, mv, kw["default"]), st
+            return
+        for _, s in I.partial(st, nonempty, "ValueError", None):
+            yield mv, s
 
     def minmax_sym(I, st, spec, kw, is_max):
         if "key" in kw:
